@@ -204,7 +204,38 @@ pub fn run_once(c: &SimCase, r: &RunSpec) -> RunOut {
     }
 }
 
+/// a logger that formats every record and throws it away: with it installed and the level raised, the
+/// arguments of the library's `debug!` lines are evaluated as they would be under RUST_LOG=debug
+struct DiscardLogger;
+impl log::Log for DiscardLogger {
+    fn enabled(&self, _: &log::Metadata) -> bool {
+        true
+    }
+    fn log(&self, record: &log::Record) {
+        use std::fmt::Write as _;
+        let mut s = String::new();
+        let _ = write!(s, "{}", record.args());
+        std::hint::black_box(&s);
+    }
+    fn flush(&self) {}
+}
+static DISCARD: DiscardLogger = DiscardLogger;
+
 fn run_once_here(c: &SimCase, r: &RunSpec) -> RunOut {
+    // the repeat run of small cases is made with debug logging on: logging must not change the simulation
+    let with_log = r.name == "det" && c.trace.len() <= 80 && c.mc.len() + c.ms.len() <= 6;
+    if with_log {
+        let _ = log::set_logger(&DISCARD);
+        log::set_max_level(log::LevelFilter::Debug);
+    }
+    let out = run_once_inner(c, r);
+    if with_log {
+        log::set_max_level(log::LevelFilter::Off);
+    }
+    out
+}
+
+fn run_once_inner(c: &SimCase, r: &RunSpec) -> RunOut {
     let delay = Duration::from_nanos(c.delay_ns);
     let text = trace_string(&c.trace);
     maybenot::verif::enable(true);
